@@ -34,6 +34,7 @@ var (
 	snapAfter   = 1500 * time.Millisecond
 	snapSpacing = 5200 * time.Millisecond
 	pollCycles  = int64(8) // complete poll cycles without progress = the poller looked and did not deliver
+	minTicks    = 12       // see canaryRoundTrip
 )
 
 const (
@@ -65,7 +66,7 @@ type hist struct {
 
 	appended int64 // bytes that must be delivered (under m.mu)
 
-	recreateBeforeNoticed bool
+	earlyGen              int // generation that was re-created before the reader had noticed the removal (-1: none)
 	rotations             map[string]int
 	stuckMsg              string
 	timeoutMsg            string
@@ -244,6 +245,7 @@ func (h *hist) wait(ws waitSpec) int {
 	var snapA *gsnap
 	var snapAt time.Time
 	var snapHits string
+	ticks := 0 // loop rounds since snapshot A in which a timer fired and the canary thread answered
 	hitsStr := func() string {
 		var ks []string
 		for k, v := range m.hits {
@@ -289,12 +291,13 @@ func (h *hist) wait(ws waitSpec) int {
 					s := notifySnap(h.gid.Load())
 					if s.parked {
 						snapA, snapAt, snapHits = &s, time.Now(), hs
+						ticks = 0
 					}
-				} else if time.Since(snapAt) >= snapSpacing {
+				} else if time.Since(snapAt) >= snapSpacing && ticks >= minTicks {
 					s := notifySnap(h.gid.Load())
 					if s.parked && s.stack == snapA.stack && s.readerG == snapA.readerG && hs == snapHits && h.diskConfirms(ws.expectEOF) {
-						h.stuckMsg = fmt.Sprintf("while waiting for %q: the writer has finished, %s, and the reader goroutine %s is parked in the select of NotifyFollowReader.Read in two goroutine dumps %.1f s apart with identical stacks; rare's watcher goroutine (chan receive) and fsnotify's readEvents (epoll_wait) are parked in both, so no notification is in flight; hook hits unchanged (%s); last events: %s\n--- dump 1 ---\n%s--- dump 2 ---\n%s",
-							ws.what, disk, s.readerG, time.Since(snapAt).Seconds(), hs, tail, snapA.text, s.text)
+						h.stuckMsg = fmt.Sprintf("while waiting for %q: the writer has finished, %s, and the reader goroutine %s is parked in the select of NotifyFollowReader.Read in two goroutine dumps %.1f s apart with identical stacks (the process kept being scheduled in between: %d timer rounds with a woken-from-syscall canary thread answering); rare's watcher goroutine (chan receive) and fsnotify's readEvents (epoll_wait) are parked in both, so no notification is in flight; hook hits unchanged (%s); last events: %s\n--- dump 1 ---\n%s--- dump 2 ---\n%s",
+							ws.what, disk, s.readerG, time.Since(snapAt).Seconds(), ticks, hs, tail, snapA.text, s.text)
 						return wStuck
 					}
 					snapA = nil
@@ -308,6 +311,11 @@ func (h *hist) wait(ws waitSpec) int {
 		select {
 		case <-ch:
 		case <-time.After(250 * time.Millisecond):
+			// the process is being scheduled: timers fire and a thread blocked in a
+			// system call (like fsnotify's) is woken and answers
+			if snapA != nil && canaryRoundTrip() {
+				ticks++
+			}
 		}
 	}
 }
@@ -480,10 +488,10 @@ func (h *hist) rot(op Op) int {
 	}
 	m.mu.Lock()
 	noticed := h.noticedLocked(hDel, hStat)
-	if !noticed {
-		h.recreateBeforeNoticed = true
-	}
 	gi := len(m.gens)
+	if !noticed {
+		h.earlyGen = gi
+	}
 	m.gens = append(m.gens, &gen{content: streamBytes("r", gi, n)[:0]})
 	m.ev("MK", -1)
 	m.bcast()
@@ -662,7 +670,7 @@ func (h *hist) stopReader() {
 // runReaderOnce executes one reader-level history.
 func runReaderOnce(c *run.Ctx, cs *Case, dir string) (out outcome) {
 	h := &hist{c: c, cs: cs, m: newMon(cs.Reopen), dir: dir, path: filepath.Join(dir, "follow.log"),
-		done: make(chan struct{}), started: make(chan struct{}), rng: run.NewRand(int64(cs.DelaySeed), "delays"), rotations: map[string]int{}}
+		done: make(chan struct{}), started: make(chan struct{}), earlyGen: -1, rng: run.NewRand(int64(cs.DelaySeed), "delays"), rotations: map[string]int{}}
 	os.RemoveAll(dir)
 	if err := os.MkdirAll(dir, 0o755); err != nil {
 		out.inconclusive = "mkdir: " + err.Error()
@@ -772,7 +780,7 @@ func runReaderOnce(c *run.Ctx, cs *Case, dir string) (out outcome) {
 			out.class = "no-end-after-removal"
 		} else if m.cur < last {
 			what = fmt.Sprintf("the re-created file (generation %d, %d bytes) is never read", last, len(m.gens[last].content))
-			if cs.Kind == "notify" && cs.Reopen && h.recreateBeforeNoticed && m.off == len(m.gens[m.cur].content) {
+			if cs.Kind == "notify" && cs.Reopen && h.earlyGen == last && m.cur == last-1 && m.off == len(m.gens[m.cur].content) {
 				out.known = true
 				what += "; it was re-created before the reader had handled the delete notification (notify.afterDelete not yet reached), so the Create/Write signal was consumed while the old file was still open and the reader now waits for a write event that already happened"
 			}
